@@ -5,7 +5,7 @@ users 0..5 (0 = owner), factory 6, router 7, tokens 8 9 10, upper-case aliases 1
 tokens in creation order (first pair 14, its LP token 15, …).  Re-run this script if that layout changes."""
 import os
 ROOT = os.path.dirname(os.path.dirname(os.path.abspath(__file__)))
-ND = 11           # number of denoms
+ND = 13           # number of denoms
 P0 = 14           # first pair address
 BIG = 85070591730234615865843651857942052863   # u128::MAX / 4
 
